@@ -7,7 +7,7 @@ HEADER = """C20 - growth is geometric and capacity invariants always hold.
     factor (array/pqueue: floor(c*num/den), at least c*(num+den)/(2den) once c*(num-den) >= 2den; deque and
     hash table: exactly 2), so k expansions reach c*r^k and n appends need O(log n) reallocations; the exact
     number of buffer allocations is compared between model and code by the ledger's request counter."""
-IMPORTS = """From Coq Require Import Permutation Sorted.\nFrom CC Require Import Base.Prelude Base.Alloc Base.Ledger Generated.Status Generated.Constants Generated.Guards.\nFrom CC Require Import Rbuf.RbufModel SPool.SPoolModel DPool.DPoolModel Array.ArrayModel Deque.DequeModel PQueue.PQueueModel Hash.HashModel Tst.TstModel Tree.TreeModel.\n@MODULES@\nLocal Open Scope N_scope."""
+IMPORTS = """From Coq Require Import Permutation Sorted.\nFrom CC Require Import Base.Prelude Base.Alloc Base.Ledger Generated.Status Generated.Constants Generated.Guards Generated.Funcs.\nFrom CC Require Import Rbuf.RbufModel SPool.SPoolModel DPool.DPoolModel Array.ArrayModel Deque.DequeModel PQueue.PQueueModel Hash.HashModel Tst.TstModel Tree.TreeModel.\n@MODULES@\nLocal Open Scope N_scope."""
 THEOREMS = [
   ("C20_array_size_le_capacity", "arr_size_le_capacity", ""),
   ("C20_array_growth", "Array:expand_spec", "capacity' = floor(capacity*num/den) > capacity, contents unchanged"),
@@ -22,6 +22,8 @@ THEOREMS = [
   ("C20_deque_trim", "deque_trim_capacity", ""),
   ("C20_deque_growth", "deque_growth_doubles", ""),
   ("C20_hashtable_pow2", "ht_cap_pow2", ""),
+  ("C20_hashtable_round_pow_two_source", "round_pow_two_is_source", "the model's round_pow_two is the whole-function translation of the source's (re-translated and compared on every run: Generated/SrcEq_hashtable.v)"),
+  ("C20_deque_upper_pow_two_source", "upper_pow_two_is_source", "the model's upper_pow_two is the whole-function translation of the source's (Generated/SrcEq_deque.v)"),
   ("C20_hashtable_load", "ht_run_load", "size <= threshold after every add, for all histories, under 1 <= threshold"),
   ("C20_hashtable_load_refuted", "ht_load_refuted", "known finding D38"),
 ]
